@@ -155,11 +155,11 @@ Definition del_order (cs : list coord) : list pcoord :=
 
 (* final state of the document, and the exception if one was raised: the code
    mutates in place, so what was deleted before the raise stays deleted *)
-Inductive final := Done (d : node) | Failed (d : node) (e : exn).
+Inductive final := MDone (d : node) | Failed (d : node) (e : exn).
 
 Fixpoint run_del (ps : list pcoord) (d : node) : final :=
   match ps with
-  | [] => Done d
+  | [] => MDone d
   | p :: r => match del_step p d with
               | ROk d' => run_del r d'
               | RErr e => Failed d e
@@ -228,7 +228,7 @@ Definition del_step_mg (mg : list N) (p : pcoord) (d : node) : res node :=
 
 Fixpoint run_del_mg (mg : list N) (ps : list pcoord) (d : node) : final :=
   match ps with
-  | [] => Done d
+  | [] => MDone d
   | p :: r => match del_step_mg mg p d with
               | ROk d' => run_del_mg mg r d'
               | RErr e => Failed d e
